@@ -316,6 +316,16 @@ func (r *Run) Violate(signature, what, caseLabel string, witness any) {
 	}
 }
 
+// IsKnown reports whether a signature is listed as a known finding.
+func (r *Run) IsKnown(signature string) bool {
+	r.mu.Lock()
+	defer r.mu.Unlock()
+
+	_, ok := r.known[signature]
+
+	return ok
+}
+
 // Violations returns the number of violations not covered by known findings.
 func (r *Run) Violations() int {
 	r.mu.Lock()
